@@ -582,6 +582,13 @@ def generate_numpy_like(expr: Array | Mapping[str, Array] | DictOfNamedArrays,
 
     assert isinstance(expr, Array | DictOfNamedArrays)
 
+    # two distinct inputs with the same name would silently be merged into
+    # one keyword argument
+    from pytato.codegen import check_validity_of_outputs, normalize_outputs
+    outputs_to_check = normalize_outputs(expr)
+    assert isinstance(outputs_to_check, DictOfNamedArrays)
+    check_validity_of_outputs(outputs_to_check)
+
     var_name_gen = UniqueNameGenerator()
 
     var_name_gen.add_names({input_expr.name
